@@ -94,7 +94,7 @@ def outcomeJson : Outcome → Json
   | .ok ns => Json.mkObj [("outcome", "ok"), ("ns", Json.mkObj (ns.map fun (k, v) => (k.toS, valJson v)))]
   | .cliError e => Json.mkObj (("outcome", "cliError") :: argErrJson e)
   | .tomlError e => Json.mkObj (("outcome", "tomlError") :: tomlFailJson e)
-  | .tomlFatalBeforeConfig e => Json.mkObj (("outcome", "tomlFatalBeforeConfig") :: tomlFailJson e)
+  | .tomlFatal e => Json.mkObj (("outcome", "tomlFatal") :: tomlFailJson e)
 
 def parseKind (s : String) : R Spec.Kind :=
   match s with
